@@ -885,6 +885,10 @@ func (r *envelopingReader) Read(data []byte) (n int, err error) {
 }
 
 func (r *envelopingReader) Close() error {
+	// Close the underlying body before taking the lock: Read holds the lock
+	// while it is blocked on the client, and closing the body is what
+	// unblocks it (as it does for a plain net/http request body).
+	closeErr := r.r.Close()
 	r.mu.Lock()
 	defer r.mu.Unlock()
 	if r.mustReleaseCurrent {
@@ -896,7 +900,7 @@ func (r *envelopingReader) Close() error {
 		r.mustReleaseCurrent = false
 	}
 	r.err = errors.New("body is closed")
-	return r.r.Close()
+	return closeErr
 }
 
 func (r *envelopingReader) prepareNext() error {
@@ -1043,11 +1047,15 @@ func (r *transformingReader) Read(data []byte) (n int, err error) {
 }
 
 func (r *transformingReader) Close() error {
+	// Close the underlying body before taking the lock: Read holds the lock
+	// while it is blocked on the client, and closing the body is what
+	// unblocks it (as it does for a plain net/http request body).
+	closeErr := r.r.Close()
 	r.mu.Lock()
 	defer r.mu.Unlock()
 	r.err = errors.New("body is closed")
 	r.msg.release(r.rw.op.bufferPool)
-	return r.r.Close()
+	return closeErr
 }
 
 func (r *transformingReader) prepareMessage() error {
